@@ -17,12 +17,14 @@ PREFIXES = ("C05",)
 
 def seq_specs(tier):
     out = []
-    for ct in scen.CONN_TYPES:
+    for ct in list(scen.CONN_TYPES) + list(scen.LEGACY_TYPES):
         for variant in ("sync", "async"):
             for method in ("GET", "POST"):
                 for warm in (False, True):
                     for consume in ("request", "early-close"):
                         if tier == "quick" and consume == "early-close" and (method == "POST" or warm):
+                            continue
+                        if ct in scen.LEGACY_TYPES and (tier == "quick" and (method == "POST" or consume != "request")):
                             continue
                         out.append(make_spec("mc.props.seqfault", "SeqFaultHarness", ct=ct, variant=variant, method=method,
                                              warm=warm, consume=consume))
